@@ -13,13 +13,7 @@ def explore(ctx):
 
 
 def replay(ctx, rec):
-    import harness, pipeline
-    asm = harness.real_asm()
-    inp = rec['input']
-    real = pipeline.run_real(asm, inp['source'], inp.get('compress', False))
-    if real['status'] != 'OK':
-        return True
-    return layout_engine.replay_C09(ctx, inp, real, rec)
+    return layout_engine.replay(ctx, 'C09', rec)
 
 
 CLAIM = {'text': "C09_layout: for every program (unique labels, align N>=1), both modes, the chunks of a successful run are exactly, in source order, the groups of the source items: code items stay code of the same line, data items are kept, constants/labels emit nothing, `align N` at output offset p becomes exactly (N - p mod N) mod N zero bytes (C09_align_item: 0<=pad<N, (p+pad) mod N = 0; C09_padding_minimal: no smaller count works), and every later pass preserves each item's size so chunk length = size() (struct.pack / sequence / shorthand length lemmas proved for all values). Tied by pipeline correspondence on per-item blobs + check that the real output is the concatenation of the blobs; falsifier walks the source lines against the real output independently (all N in 1..17,32,64,100,4096 at every residue).", 'note': "Trusted: as C03. The real `output += item.data` concatenation is observed (wrapper around resolve_blobs), not modelled. align 0 / negative N are outside the property's quantifier.", 'technique': 'Coq proof over the pass model (grouping relations, position-indexed alignment relation); differential correspondence; independent source-walk falsifier', 'design': '6/C09'}
